@@ -46,6 +46,10 @@ def log(*a):
     print(*a, file=sys.stderr, flush=True)
 
 
+# rules whose verdict rests on a measurement of the real process rather than on the simulated history
+MEASURED_RULES = {"allocation-out-of-proportion"}
+
+
 def die2(msg):
     print("INFRASTRUCTURE: " + msg, flush=True)
     sys.exit(2)
@@ -418,6 +422,8 @@ def run_check(a, prop, tier, seed, spec, scratch, t_start):
 
     replay_files = []
     nondet_notes = []
+    unconfirmed_measurements = collections.Counter()
+    noise_groups = set()
     min_deadline = time.time() + (60 if tier == "quick" else 240)
     for (rule, sig), items in reported[:4]:
         # smallest failing plan first
@@ -477,6 +483,12 @@ def run_check(a, prop, tier, seed, spec, scratch, t_start):
                     exit_code = 1
                     confirmed = None
                     break
+            if rr is None and rule in MEASURED_RULES and res and res[0].get("hash") == r.get("hash"):
+                # The execution replayed exactly (same trace hash); what differs is a measurement of the real process
+                # (bytes allocated), the one observable of a world that the simulator does not own. A verdict that a
+                # fresh process does not repeat is measurement noise, not a violation and not a determinism failure.
+                unconfirmed_measurements[rule] += 1
+                continue
             if rr is None:
                 infra.append("determinism: violation %s/%s of seed %s did not replay in a fresh process (hash %s vs %s)" % (rule, sig, r["seed"], r.get("hash"), res[0].get("hash") if res else None))
                 continue
@@ -492,6 +504,8 @@ def run_check(a, prop, tier, seed, spec, scratch, t_start):
             confirmed = (r, v, pf)
             break
         if not confirmed:
+            if rule in MEASURED_RULES and unconfirmed_measurements[rule]:
+                noise_groups.add((rule, sig))
             continue
         r, v, pf = confirmed
         plan = json.load(open(pf))
@@ -552,13 +566,14 @@ def run_check(a, prop, tier, seed, spec, scratch, t_start):
         "build_s": round(build_s, 1),
         "explore_s": round(explore_s, 1),
         "race_detector": race,
+        "unconfirmed_measurements": dict(unconfirmed_measurements),
     }
     ev = {
         "property_id": prop, "tier": tier, "seed": seed, "level": LEVEL[prop], "coverage": cov,
         "assumptions": ["the simulator (kernel, simnet, simsync, rewriter) and the independent SIP reader are trusted",
                         "scheduling points are synchronisation, channel, timer and I/O operations; code between two of them runs atomically",
                         "a clean batch is evidence, not proof: schedules and inputs are sampled"],
-        "wall_s": round(wall, 1), "violations": sum(len(i) for _, i in reported),
+        "wall_s": round(wall, 1), "violations": sum(len(i) for k, i in reported if k not in noise_groups),
     }
     if not a.no_evidence and prop not in ("SMOKE", "SIMSELF"):
         os.makedirs(os.path.join(V, "evidence"), exist_ok=True)
@@ -569,7 +584,9 @@ def run_check(a, prop, tier, seed, spec, scratch, t_start):
     for l in nondet_notes:
         print("note: " + l)
     print("%s %s: %d worlds, %d judgements, %d distinct non-trivial, %.0f worlds/h, %.1fs wall; violations=%d known=%d" % (
-        prop, tier, evaluations, judged, len(distinct), rate, wall, sum(len(i) for _, i in reported), sum(n for _, n in known_seen.values())))
+        prop, tier, evaluations, judged, len(distinct), rate, wall, sum(len(i) for k, i in reported if k not in noise_groups), sum(n for _, n in known_seen.values())))
+    if noise_groups:
+        print("note: %d measurement verdict(s) (%s) were not repeated by a fresh process that replayed the same execution and were discarded as measurement noise" % (sum(unconfirmed_measurements.values()), ", ".join(sorted(unconfirmed_measurements))))
     if infra:
         print("INFRASTRUCTURE: %d problem(s), first:\n%s" % (len(infra), "\n".join(infra[:3])[:4000]))
         return 2 if exit_code == 0 else exit_code
